@@ -124,8 +124,8 @@ def instances(cls: type, limit: Optional[int] = None) -> List[Tuple[str, Dict[st
     of cls this backend accepts (documented-invariant violations left out)."""
     out = []
     for label, w in wiregen.wire_objects(cls, 2):
-        if any(v is None for v in w.values()):
-            continue
+        if any(v is None for v in w.values()) or label.startswith("unknown:"):
+            continue                     # the unknown-member family is part A's material
         if wiregen.qual(cls).endswith(":Root") and not str(w.get("uri", "")).startswith("file://"):
             continue
         w = marked(cls, w)
